@@ -14,7 +14,7 @@ ALL = "-a" in sys.argv        # -a: every file of the packages, not only the anc
 REPORT_ONLY = "-r" in sys.argv  # -r: re-print from the profile of the last run
 root = "/verif"
 env = dict(os.environ, VERIF_COVER="1", GOFLAGS="-mod=mod", GOPROXY="off", GOSUMDB="off", GOTOOLCHAIN="local")
-cov = root + "/run/cover/covdata"
+cov = root + "/run/cover/covdata/" + pid
 prof = root + "/run/cover/%s.prof" % pid
 if not REPORT_ONLY:
     shutil.rmtree(cov, ignore_errors=True)
